@@ -13,6 +13,7 @@ import (
 	"time"
 
 	"github.com/gdamore/tcell/v2"
+	"github.com/gdamore/tcell/v2/encoding"
 	"github.com/gdamore/tcell/v2/terminfo"
 	_ "github.com/gdamore/tcell/v2/terminfo/extended"
 
@@ -78,7 +79,18 @@ var scrWide = []rune{0x4e16, 0x754c, 0xac00, 0xff21, 0x3042, 0x1f600}
 var scrZero = []rune{0, 7, 8, 0xa, 0xd, 0x1b, 0x7f, 0x85, 0x9b, 0x200b, 0x200d, 0x2060, 0xfeff, 0x202e, 0x2028, 0x301, -1, 0x110000, 0xd800}
 var scrComb = [][]rune{nil, nil, nil, nil, {0x301}, {0x300, 0x302}, {0x20dd}}
 
+// legacyRunes: runes that single-byte and CJK locales do or do not have, line-drawing runes with
+// ACS names, and a few with default fallbacks
+var legacyRunes = []rune{0xe9, 0xdf, 0x3b1, 0x416, 0x5d0, 0x20ac, 0x2500, 0x2502, 0x250c, 0x2510, 0x2514, 0x2518, 0x251c, 0x2524,
+	0x252c, 0x2534, 0x253c, 0x2192, 0x2190, 0x2191, 0x2193, 0x2588, 0x25c6, 0xb0, 0xb1, 0xa3, 0xb7, 0x3c0, 0x2260, 0x2264, 0x2265,
+	0x23ba, 0x23bd, 0x4e16, 0x754c, 0xac00, 0x3042, 0xff21, 0x1f600, 0x2603, 0x401, 0x141}
+
+var pickLegacy bool
+
 func pickRune(rng *rand.Rand) rune {
+	if pickLegacy && rng.Intn(2) == 0 {
+		return legacyRunes[rng.Intn(len(legacyRunes))]
+	}
 	switch k := rng.Intn(20); {
 	case k < 12:
 		return scrNarrow[rng.Intn(len(scrNarrow))]
@@ -88,6 +100,8 @@ func pickRune(rng *rand.Rand) rune {
 		return scrZero[rng.Intn(len(scrZero))]
 	}
 }
+
+var errHang = fmt.Errorf("a screen call did not return")
 
 type screenRun struct {
 	tw      *trace.Writer
@@ -129,6 +143,18 @@ func planScreen(rng *rand.Rand, nops int, w, h int, mix string, rich bool, hasCa
 	var last []sop
 	for i := 0; i < nops; i++ {
 		k := rng.Intn(100)
+		if mix == "legacy" && running && k >= 92 {
+			rr := legacyRunes[rng.Intn(len(legacyRunes))]
+			switch rng.Intn(3) {
+			case 0:
+				// a changed fallback shows at the next draw of a cell: force one for every cell
+				add(sop{Op: "Fallback", R: rr, B: rng.Intn(3) != 0, S: []string{"-", "+", "#", "o"}[rng.Intn(4)]})
+				add(sop{Op: "Sync"})
+			default:
+				add(sop{Op: "CanDisplay", R: rr, B: rng.Intn(2) == 0})
+			}
+			continue
+		}
 		if !running {
 			// while suspended only a few calls make sense
 			switch {
@@ -158,8 +184,10 @@ func planScreen(rng *rand.Rand, nops int, w, h int, mix string, rich bool, hasCa
 			if len(last) > 8 {
 				last = last[1:]
 			}
-		case k < 50 && len(last) > 0: // re-store identical content (C13)
+		case k < 48 && len(last) > 0: // re-store identical content (C13)
 			add(last[rng.Intn(len(last))])
+		case k < 50: // read a cell back and store what was read (an unchanged cell, whatever wrote it)
+			add(sop{Op: "Restore", X: rng.Intn(cw), Y: rng.Intn(ch)})
 		case k < 65:
 			add(sop{Op: "Show"})
 		case k < 68:
@@ -378,11 +406,39 @@ func (r *screenRun) run(ops []sop, w, h int, truecolor bool, altscreen bool) err
 	}
 	r.tty = faketty.New(w, h)
 	r.tw.Emit(trace.Ev{"ev": "Reset"})
+	fb0 := []interface{}{}
+	for k, v := range tcell.RuneFallbacks { // documented: registered implicitly on every screen
+		fb0 = append(fb0, []interface{}{int(k), trace.Str(v)})
+	}
 	cfg := trace.Ev{"ev": "Config", "term": r.term, "W": w, "H": h, "cs": "utf8", "wide": wide, "zero": zero,
 		"ti": tiJSON(&ti), "near": near, "bw": bw, "truecolor": truecolor, "altscreen": altscreen,
-		"xtermlike": ti.XTermLike || strings.HasPrefix(ti.Name, "xterm")}
+		"xtermlike": ti.XTermLike || strings.HasPrefix(ti.Name, "xterm"), "dec": []interface{}{}, "fb0": fb0, "charset": "UTF-8"}
 	if r.charset != "" && r.charset != "UTF-8" {
-		return fmt.Errorf("legacy charsets are driven by the charset sub-command")
+		// legacy locale: the terminal decodes bytes with the table of the characters in use,
+		// produced by an independent encoder instance of that charset
+		enc := tcell.GetEncoding(r.charset)
+		if enc == nil {
+			return fmt.Errorf("charset %s is not registered", r.charset)
+		}
+		dec := []interface{}{}
+		seen := map[rune]bool{}
+		note := func(c rune) {
+			if c < 0x80 || c > 0x10ffff || seen[c] {
+				return
+			}
+			seen[c] = true
+			b, err := enc.NewEncoder().Bytes([]byte(string(c)))
+			if err == nil && len(b) > 0 && b[0] != 0x1a && b[0] >= 0x80 {
+				dec = append(dec, []interface{}{trace.Ints(b), int(c)})
+			}
+		}
+		for _, o := range ops {
+			note(o.R)
+			for _, c := range o.Comb {
+				note(c)
+			}
+		}
+		cfg["cs"], cfg["dec"], cfg["charset"] = "mb", dec, r.charset
 	}
 	r.tw.Emit(cfg)
 	s, err := tcell.NewTerminfoScreenFromTtyTerminfo(r.tty, &ti)
@@ -402,6 +458,9 @@ func (r *screenRun) run(ops []sop, w, h int, truecolor bool, altscreen bool) err
 		fmt.Fprintf(&sig, "%s(%d,%d,%d) ", o.Op, o.X, o.Y, o.R)
 		mark = r.tty.Mark()
 		e := trace.Ev{"ev": o.Op}
+		if os.Getenv("VH_DEBUG") != "" {
+			fmt.Fprintf(os.Stderr, "%s %s x=%d y=%d w=%d h=%d r=%d b=%v\n", r.term, o.Op, o.X, o.Y, o.W, o.H, o.R, o.B)
+		}
 		switch o.Op {
 		case "SetContent":
 			mine := append([]rune(nil), o.Comb...)
@@ -410,6 +469,11 @@ func (r *screenRun) run(ops []sop, w, h int, truecolor bool, altscreen bool) err
 				mine[i] = 'X'
 			}
 			e["x"], e["y"], e["cp"], e["wc"], e["comb"], e["st"] = o.X, o.Y, int(o.R), runes.ClassScreen(o.R), trace.Runes(o.Comb), tcx.Style(o.St)
+		case "Restore":
+			rr, cc, st, _ := s.GetContent(o.X, o.Y)
+			s.SetContent(o.X, o.Y, rr, cc, st)
+			e["ev"] = "SetContent"
+			e["x"], e["y"], e["cp"], e["wc"], e["comb"], e["st"] = o.X, o.Y, int(rr), runes.ClassScreen(rr), trace.Runes(cc), tcx.Style(st)
 		case "Fill":
 			s.Fill(o.R, o.St)
 			e["cp"], e["wc"], e["st"] = int(o.R), runes.ClassScreen(o.R), tcx.Style(o.St)
@@ -441,11 +505,25 @@ func (r *screenRun) run(ops []sop, w, h int, truecolor bool, altscreen bool) err
 		case "LockRegion":
 			s.LockRegion(o.X, o.Y, o.W, o.H, o.B)
 			e["x"], e["y"], e["w"], e["h"], e["lock"] = o.X, o.Y, o.W, o.H, o.B
-		case "Show":
-			s.Show()
-			r.stats.shows++
-		case "Sync":
-			s.Sync()
+		case "Show", "Sync":
+			// a draw that never returns is reported as an event, not as a stuck harness
+			done := make(chan struct{})
+			go func() {
+				if o.Op == "Show" {
+					s.Show()
+				} else {
+					s.Sync()
+				}
+				close(done)
+			}()
+			select {
+			case <-done:
+			case <-time.After(10 * time.Second):
+				e["ev"] = "Hang"
+				e["call"] = o.Op
+				r.emit(e, mark)
+				return errHang
+			}
 			r.stats.shows++
 		case "WinSize":
 			before := r.tty.Writes()
@@ -492,6 +570,16 @@ func (r *screenRun) run(ops []sop, w, h int, truecolor bool, altscreen bool) err
 		case "SetSize":
 			s.SetSize(o.W, o.H)
 			e["w"], e["h"] = o.W, o.H
+		case "Fallback":
+			if o.B {
+				s.RegisterRuneFallback(o.R, o.S)
+			} else {
+				s.UnregisterRuneFallback(o.R)
+			}
+			e["r"], e["on"], e["subst"] = int(o.R), o.B, trace.Str(o.S)
+		case "CanDisplay":
+			e["r"], e["fb"] = int(o.R), o.B
+			e["res"] = s.CanDisplay(o.R, o.B)
 		case "Suspend":
 			s.Suspend()
 		case "Resume":
@@ -560,9 +648,16 @@ func screenMain(args []string) error {
 	mix := fs.String("mix", "draw", "draw | modes")
 	beh := fs.String("behaviours", "", "TLC-generated histories (JSON arrays of ops), run on each terminal in -terms")
 	big := fs.Int("big", 0, "every big-th history uses a large screen (0: never)")
+	charset := fs.String("charset", "UTF-8", "locale character set")
 	fs.Parse(args)
+	encoding.Register()
 
-	os.Setenv("LC_ALL", "en_US.UTF-8")
+	if *charset == "UTF-8" {
+		os.Setenv("LC_ALL", "en_US.UTF-8")
+	} else {
+		os.Setenv("LC_ALL", "en_US."+*charset)
+		pickLegacy = true
+	}
 	os.Unsetenv("LC_CTYPE")
 	os.Unsetenv("LANG")
 	os.Unsetenv("LINES")
@@ -617,7 +712,7 @@ func screenMain(args []string) error {
 				ti = withTrueColor(ti)
 			}
 			truecolor := ti.SetFgRGB != "" || ti.SetBgRGB != "" || ti.SetFgBgRGB != ""
-			r := &screenRun{tw: tw, rng: rng, term: name, ti: ti, stats: stats, mix: *mix, rich: true}
+			r := &screenRun{tw: tw, rng: rng, term: name, ti: ti, stats: stats, mix: *mix, rich: true, charset: *charset}
 			var ops []sop
 			if i < len(planned) {
 				ops = planned[i]
@@ -626,10 +721,14 @@ func screenMain(args []string) error {
 				ops = planScreen(rng, *nops/2+rng.Intn(*nops), w, h, *mix, true, false)
 			}
 			if err := r.run(ops, w, h, truecolor, rng.Intn(4) != 0); err != nil {
+				if err == errHang { // the wedged goroutine holds the screen lock: stop here, the log says why
+					goto finish
+				}
 				return fmt.Errorf("%s: %v", name, err)
 			}
 		}
 	}
+finish:
 	if err := tw.Close(); err != nil {
 		return err
 	}
